@@ -13,7 +13,7 @@ from simkit import integrators, models
 from simkit.core import HarnessError, Machine, RunResult, Trace, digest_of, fnum, sig_matches, violation
 from simkit.rng import SimRng
 
-STABLE = ("F1", "F2", "F6")
+STABLE = ("F1", "F2", "F6", "F1n")
 UNSTABLE = ("F5", "F4", "F3", "F1k0")
 
 
@@ -30,6 +30,9 @@ def _spec_params(fam: str, r) -> dict:  # noqa: ANN001
     if fam == "F1":
         k = 1.0 / tau()
         return {"c": k * r.choice([0.5, 1.0, 2.0, 4.0]), "k": k}
+    if fam == "F1n":
+        k = 1.0 / tau()
+        return {"c": k * r.choice([0.5, 1.0, 2.0]), "k": k, "n": r.choice([1.0, 2.0, 3.0])}
     if fam == "F2":
         k1, k2 = 1.0 / tau(), 1.0 / tau()
         return {"c": min(k1, k2) * r.choice([0.5, 1.0, 2.0]), "k1": k1, "k2": k2}
@@ -47,7 +50,7 @@ def _spec_params(fam: str, r) -> dict:  # noqa: ANN001
 
 def gen_case(rng: SimRng, tier: str) -> dict:  # noqa: ARG001
     r = rng("case")
-    fam = r.choice(["F1", "F1", "F2", "F6", "F5", "F4", "F3", "F1"])
+    fam = r.choice(["F1", "F1", "F2", "F6", "F5", "F4", "F3", "F1", "F1n", "F1n"])
     variables, _ = models.FAMILIES[fam]
     spec = {"family": fam, "params": _spec_params(fam, r), "y0": {n: r.choice([0.0, 0.5, 1.0, 3.0]) for n in variables}}
     if fam == "F4" and spec["y0"]["x"] == 0.0:
@@ -87,13 +90,19 @@ def gen_case(rng: SimRng, tier: str) -> dict:  # noqa: ARG001
                 else:
                     steps.append({"do": "ss", "tolerance": 1e-6, "rel_norm": r.random() < 0.25})
             ops.append({"op": "ss_history", "steps": steps})
-        elif fam == "F1":
+        elif fam in ("F1", "F1n"):
+            par = "k" if fam == "F1" or r.random() < 0.4 else "n"
             vals = [r.choice([0.5, 1.0, 2.0, 0.1]) for _ in range(r.randint(1, 4))]
-            if r.random() < 0.7:
+            if par == "k" and r.random() < 0.7:
                 vals.insert(r.randrange(len(vals) + 1), 0.0)  # k = 0: dx/dt = c, no steady state
-            op = {"op": "scan_ss", "param": "k", "values": vals, "rel_norm": r.random() < 0.3}
+            op = {"op": "scan_ss", "param": par, "values": vals, "rel_norm": r.random() < 0.3}
             if len(set(vals)) == len(vals) and len(vals) >= 2 and r.random() < 0.4:
                 op["cache_prefill"] = sorted(r.sample(range(len(vals)), r.randint(1, len(vals) - 1)))
+            elif len(vals) >= 2 and r.random() < 0.35:
+                # row labels the user did not make unique (two tables concatenated): 0, 1, 0, 1
+                op["labels"] = [j % max(1, len(vals) // 2) for j in range(len(vals))]
+            if r.random() < 0.5:
+                op["pre_evaluated"] = True  # the model was looked at before it was scanned
             ops.append(op)
         else:
             ops.append({"op": "sim_ss", "y0": None, "tolerance": 1e-6, "rel_norm": False, "fault": None})
@@ -295,6 +304,12 @@ class Exec:
         fam = spec["family"]
         model = models.build_model(spec)
         to_scan = pd.DataFrame({op["param"]: [float(v) for v in op["values"]]})
+        if op.get("labels"):
+            to_scan.index = pd.Index(list(op["labels"])[: len(to_scan)])
+            self.counters["scan_with_non_unique_row_labels"] += 1
+        if op.get("pre_evaluated"):
+            model.get_right_hand_side()
+            model.get_args()
         exc = None
         ck = {}
         cache_dir = None
